@@ -13,6 +13,7 @@ mod c09;
 mod c17;
 pub mod c10;
 pub mod zone;
+pub mod tzdb;
 
 pub fn generate(suite: &str, tier: &str, seed: u64) -> Vec<String> {
     let mut rng = Rng::new(seed);
@@ -31,6 +32,7 @@ pub fn generate(suite: &str, tier: &str, seed: u64) -> Vec<String> {
         "c18" => c17::generate_c18(&mut rng, thorough),
         "c10" => c10::generate(&mut rng, thorough),
         "c13" => zone::generate_c13(&mut rng, thorough),
+        "c15" => tzdb::generate(&mut rng, thorough),
         "c14" => zone::generate_c14(&mut rng, thorough),
         _ => panic!("unknown suite {suite}"),
     }
@@ -38,7 +40,7 @@ pub fn generate(suite: &str, tier: &str, seed: u64) -> Vec<String> {
 
 /// Suites whose lines are evaluated under the per-line watchdog (see guard.rs).
 pub fn guarded(suite: &str) -> bool {
-    matches!(suite, "c03")
+    matches!(suite, "c03" | "c15")
 }
 
 pub fn eval_more(t: &[&str]) -> String {
@@ -69,9 +71,18 @@ pub fn eval_more(t: &[&str]) -> String {
     if let Some(s) = zone::eval(t) {
         return s;
     }
+    if let Some(s) = tzdb::eval(t) {
+        return s;
+    }
     format!("?bad-op {}", t[0])
 }
 
-pub fn special(_cmd: &str, _args: &[String], _out: &mut impl Write) -> bool {
-    false
+pub fn special(cmd: &str, _args: &[String], out: &mut impl Write) -> bool {
+    match cmd {
+        "zones" => {
+            tzdb::dump_zones(out);
+            true
+        }
+        _ => false,
+    }
 }
